@@ -582,6 +582,9 @@ pub struct Station {
     pub chan: Vec<u8>,
     pub style: Style,
     pub style_per_line: bool,
+    /// the fragments of one group differ in talker, sentence type and channel (nothing in the
+    /// properties ties a group to one channel or talker: only the sequence id and the order)
+    pub mixed_hdr: bool,
 }
 
 /// one line as a station put it on the wire, with what went into it
@@ -646,6 +649,7 @@ impl Station {
             chan,
             style: if rng.ratio(1, 2) { Style::plain() } else { Style::random(rng) },
             style_per_line: rng.ratio(1, 6),
+            mixed_hdr: rng.ratio(1, 8),
         }
     }
 
@@ -686,7 +690,7 @@ impl Station {
             } else {
                 0
             };
-            let hdr = Hdr {
+            let mut hdr = Hdr {
                 addr: self.addr,
                 n: n as u8,
                 k: (i + 1) as u8,
@@ -694,6 +698,23 @@ impl Station {
                 chan: self.chan.clone(),
                 fill,
             };
+            if self.mixed_hdr && n > 1 && i > 0 {
+                if rng.ratio(1, 2) {
+                    hdr.chan = match rng.below(5) {
+                        0 => vec![],
+                        1 => b"1".to_vec(),
+                        2 => b"A".to_vec(),
+                        3 => b"B".to_vec(),
+                        _ => vec![chan_byte(rng)],
+                    };
+                }
+                if rng.ratio(1, 2) {
+                    hdr.addr[..2].copy_from_slice(&rng.pick(TALKERS)[..]);
+                }
+                if rng.ratio(1, 4) {
+                    hdr.addr[2..].copy_from_slice(if rng.ratio(1, 2) { b"VDO" } else { b"VDM" });
+                }
+            }
             let st = if self.style_per_line { Style::random(rng) } else { self.style.clone() };
             let bytes = encode_line(&hdr, &piece, &st);
             out.push(Emitted {
